@@ -105,8 +105,9 @@ func (g *c02Gate) enter(kind string) (string, func()) {
 
 var c02StackBuf = make([]byte, 4<<20)
 
-// c02Settled: a signature of the goroutines that run node code, and whether all of them are parked
-func (g *c02Gate) settled() (sig string, all bool) {
+// c02Settled: a signature of the goroutines that run node code (and of goroutine mainID, whatever it runs), whether
+// all of them are parked, and where a goroutine inside storeBlock is parked ("" if none is there)
+func c02Settled(mainID uint64) (sig string, all bool, storeBlockAt string) {
 	n := runtime.Stack(c02StackBuf, true)
 	all = true
 	var sb strings.Builder
@@ -118,10 +119,10 @@ func (g *c02Gate) settled() (sig string, all bool) {
 		rest := hdr[len("goroutine "):]
 		idS, st, _ := strings.Cut(rest, " [")
 		id, _ := strconv.ParseUint(idS, 10, 64)
-		if id != g.mainID && !strings.Contains(body, "neo-go/pkg/") {
+		if id != mainID && !strings.Contains(body, "neo-go/pkg/") {
 			continue // not node code (harness infrastructure, runtime)
 		}
-		if strings.Contains(body, "main.(*c02Gate).loop") {
+		if strings.Contains(body, "main.(*c02Gate).loop") || strings.Contains(body, "main.c02Settled") {
 			continue
 		}
 		st = strings.TrimSuffix(st, "]:")
@@ -137,12 +138,20 @@ func (g *c02Gate) settled() (sig string, all bool) {
 		if !parked {
 			all = false
 		}
+		if strings.Contains(body, ".storeBlock(") {
+			storeBlockAt = st
+		}
 		sb.WriteString(idS)
 		sb.WriteByte(':')
 		sb.WriteString(st)
 		sb.WriteByte(';')
 	}
-	return sb.String(), all
+	return sb.String(), all, storeBlockAt
+}
+
+func (g *c02Gate) settled() (string, bool) {
+	sig, all, _ := c02Settled(g.mainID)
+	return sig, all
 }
 
 func (g *c02Gate) loop() {
